@@ -377,8 +377,14 @@ def stage_decide(ctx, pool, configs):
     rng = ctx.rng
     cases, stats = [], {'accept_plain': 0, 'accept_cert': 0, 'reject': 0, 'accept_nocheck': 0, 'cb_accept': 0}
     seen_forms = set()
+    all_forms = sorted(set(FORMS)) + ['none']
+    first_forced = max(0, len(configs) - len(all_forms))
     for ci, cfg in enumerate(configs):
         cfg = dict(cfg, path='direct')                  # this stage holds a directly connected client in mid-exchange
+        if ci >= first_forced:
+            # the last generated configurations walk through every way of supplying known_hosts, so that the
+            # coverage guard below never depends on the luck of the seed (the fixed configurations come first)
+            cfg['form'] = all_forms[ci - first_forced]
         kh = known_hosts_arg(pool, cfg, ctx.work, 'd%d' % ci)
         try:
             tr_real = real_lookup(pool, kh, cfg)
